@@ -350,6 +350,7 @@ let step_preds : (string * (vconfig -> fstep -> bool)) list = [
   ("c18_pre_monitor", c18_pre_monitor);
   ("c17_synack_ok", c17_synack_ok);
   ("c17_fin_after_data_ok", c17_fin_after_data_ok);
+  ("c17_fin_after_data_noerr", c17_fin_after_data_noerr);
   ("c17_fin_number_step_ok", c17_fin_number_step_ok);
   ("c17_reset_ok", c17_reset_ok);
   ("c03_ready_closed_ok", c03_ready_closed_ok);
